@@ -18,6 +18,9 @@ R14.2 cycle cut.  (a) the ``key in self._basins_ignored`` test dominates
       constructor evaluates basins; (d) ``BasinProxy`` forwards
       ``ignore_basins``; (e) the ignore list is only ever extended; (f) every
       ``basins_get_dicts`` attaches ``key``.
+      (g) termination also needs that code inside ``with self._av_check_lock``
+      (a non-reentrant lock) never reaches a method that takes the lock again
+      (calls, property reads, string conversion of ``self``).
 R14.3 identifier law.  ``verify_basin``: equality for mapping "same",
       ``referrer.startswith(basin)`` otherwise; the verdict is returned;
       ``get_feature_data`` asserts it before touching data; file basins are
@@ -372,9 +375,11 @@ def r141_writers(ctx, repo):
             ctx.ob("R14.1", ok,
                    f"RTDC_HDF5 enables local basins for format(s) {on} only"
                    if ok else
-                   f"RTDC_HDF5 enables local basins for formats {on}: "
-                   f"subclasses reading from the network (http, s3) follow "
-                   f"file basins", node=node, label=lab)
+                   f"RTDC_HDF5 enables local basins for formats {on}: a "
+                   f"subclass with any of these formats that is not the local "
+                   f"'hdf5' reader (network readers such as http / s3 are "
+                   f"subclasses of RTDC_HDF5) follows file basins",
+                   node=node, label=lab)
             # the instance attribute is set after the base initialiser ran
         elif policy == "in-memory":
             ctx.ob("R14.1", kind == "class",
@@ -955,6 +960,149 @@ def _check_get_dicts(ctx, repo, rel, q, f):
 
 
 # ----------------------------------------------------------------------
+def r142_locks(ctx, repo):
+    """termination: code running inside ``with self.<lock>:`` (a
+    non-reentrant threading.Lock) must not reach a method that acquires the
+    same lock – through method calls, property reads or the string
+    conversion of ``self`` (f-string, str(), format, %)."""
+    base = repo.cls(FB, "Basin")
+    classes = [(FB, base)] + [(rel, cls) for rel, cls, _, _ in
+                              fold_basin_classes(repo)]
+    # kind of every lock attribute
+    locks = {}
+    for rel, cls in classes:
+        for m in [st for st in cls.body if isinstance(st, ast.FunctionDef)]:
+            for n in walk(m):
+                if isinstance(n, ast.Assign) and isinstance(
+                        n.value, ast.Call) and (dotted(n.value.func)
+                                                or "").split(".")[-1] in (
+                        "Lock", "RLock"):
+                    for t in n.targets:
+                        if is_self_attr(t):
+                            locks[t.attr] = dotted(n.value.func).split(
+                                ".")[-1]
+
+    def members(cls):
+        """name -> FunctionDef over the class and Basin (the MRO)"""
+        out = {}
+        for c in (base, cls):
+            for st in c.body:
+                if isinstance(st, ast.FunctionDef):
+                    out[st.name] = st
+        return out
+
+    def regions(fn):
+        """[(lock attribute, body statements)] of `with self.<lock>:`"""
+        out = []
+        for n in walk(fn):
+            if isinstance(n, (ast.With, ast.AsyncWith)):
+                for it in n.items:
+                    if is_self_attr(it.context_expr) \
+                            and it.context_expr.attr in locks:
+                        out.append((it.context_expr.attr, n))
+            elif isinstance(n, ast.Call) and last_attr(n) == "acquire" \
+                    and isinstance(n.func, ast.Attribute) and is_self_attr(
+                        n.func.value) and n.func.value.attr in locks:
+                raise AnalysisError(
+                    f"{fn.name}: explicit acquire() of "
+                    f"self.{n.func.value.attr} (only `with` is analysed)")
+        return out
+
+    def edges(nodes, mem):
+        """members of the class reached directly from the given AST nodes;
+        -> {member name: how}"""
+        out = {}
+
+        def conv(how):
+            for nm in ("__format__", "__str__", "__repr__"):
+                if nm in mem:
+                    out.setdefault(nm, how)
+                    if nm != "__format__":
+                        return
+        for root in nodes:
+            for n in walk(root):
+                if is_self_attr(n) and isinstance(n.ctx, ast.Load) \
+                        and n.attr in mem:
+                    out.setdefault(n.attr, f"self.{n.attr}")
+                elif isinstance(n, ast.FormattedValue) and is_name(
+                        n.value, "self"):
+                    conv("f-string of self")
+                elif isinstance(n, ast.Call):
+                    d = dotted(n.func) or ""
+                    selfarg = [a for a in list(n.args) + [
+                        k.value for k in n.keywords] if is_name(a, "self")]
+                    if not selfarg:
+                        continue
+                    if d in ("str", "repr", "format", "print") or (
+                            isinstance(n.func, ast.Attribute)
+                            and n.func.attr == "format") or d in (
+                            "warnings.warn", "logging.warning",
+                            "logger.warning", "logger.info"):
+                        conv(f"{d or n.func.attr}(self)")
+                    elif d in ("super", "isinstance", "id", "hex", "type",
+                               "weakref.ref"):
+                        continue
+                    else:
+                        raise AnalysisError(
+                            f"`{short(n, 50)}` passes self out of a locked "
+                            f"region: cannot follow")
+                elif isinstance(n, ast.BinOp) and isinstance(
+                        n.op, ast.Mod) and any(is_name(x, "self")
+                                               for x in ast.walk(n.right)):
+                    conv("%-formatting of self")
+        return out
+    n_regions = 0
+    for rel, cls in classes:
+        mem = members(cls)
+        acquirers = {}
+        for nm, fn in mem.items():
+            for lk, _ in regions(fn):
+                acquirers.setdefault(lk, set()).add(nm)
+        for st in cls.body:
+            if not isinstance(st, ast.FunctionDef):
+                continue
+            for lk, w in regions(st):
+                n_regions += 1
+                path = None
+                if locks[lk] != "RLock":
+                    seen = {}
+                    todo = [(k, [f"{how}"]) for k, how in edges(
+                        w.body, mem).items()]
+                    # a nested `with` on the same lock
+                    for n in w.body:
+                        for x in walk(n):
+                            if isinstance(x, ast.With) and any(
+                                    is_self_attr(i.context_expr, lk)
+                                    for i in x.items):
+                                path = ["nested with"]
+                    while todo and path is None:
+                        nm, trail = todo.pop(0)
+                        if nm in seen:
+                            continue
+                        seen[nm] = trail
+                        if nm in acquirers.get(lk, ()):
+                            path = trail + [f"{nm} acquires self.{lk}"]
+                            break
+                        for k, how in edges(mem[nm].body, mem).items():
+                            if k not in seen:
+                                todo.append((k, trail + [
+                                    f"{nm} -> {how}"]))
+                ctx.ob("R14.2", path is None,
+                       f"nothing inside `with self.{lk}` "
+                       + ("(re-entrant lock)" if locks[lk] == "RLock" else
+                          "reaches a method that takes the lock again")
+                       if path is None else
+                       f"inside `with self.{lk}` (non-reentrant "
+                       f"threading.Lock) the code reaches "
+                       f"{' ; '.join(path)}: the thread waits for the lock "
+                       f"it holds – opening the dataset never terminates",
+                       node=w, key=f"{rel}::{cls.name}.{st.name}::lock "
+                       f"self.{lk} not re-entered")
+    if n_regions == 0:
+        raise AnalysisError("no locked region found in the basin classes")
+
+
+# ----------------------------------------------------------------------
 def r143(ctx, repo, sites):
     vb = repo.func(FB, "Basin.verify_basin")
     REF = "self.measurement_identifier"
@@ -1419,33 +1567,97 @@ def r144(ctx, repo):
             fbp = st
     if fbp is None:
         raise AnalysisError("RTDCBase.features_basin lost")
-    adds = [n for n in walk(fbp) if (isinstance(n, ast.AugAssign) or (
-        isinstance(n, ast.Expr) and isinstance(n.value, ast.Call)
-        and last_attr(n.value) in ("extend", "append", "update")))
-        and ".features" in txt(n)]
-    if not adds:
+    # the list that becomes self._basins_features
+    stores = [n for n in walk(fbp) if isinstance(n, ast.Assign) and any(
+        is_self_attr(t, "_basins_features") for t in n.targets)]
+    lists = set()
+    for n in stores:
+        for x in ast.walk(n.value):
+            if isinstance(x, ast.Name) and isinstance(single_assign_any(
+                    fbp, x.id), ast.List):
+                lists.add(x.id)
+    if len(lists) != 1:
         raise AnalysisError("features_basin: collection idiom lost")
+    L = list(lists)[0]
+    adds = []
+    for n in walk(fbp):
+        if isinstance(n, ast.AugAssign) and is_name(n.target, L):
+            adds.append((n, n.value))
+        elif isinstance(n, ast.Expr) and isinstance(
+                n.value, ast.Call) and isinstance(
+                n.value.func, ast.Attribute) and is_name(
+                n.value.func.value, L) and n.value.func.attr in (
+                "extend", "append", "update", "insert") and n.value.args:
+            adds.append((n, n.value.args[-1]))
+        elif isinstance(n, ast.Assign) and is_name(
+                n.targets[0], L) and not isinstance(n.value, ast.List):
+            adds.append((n, n.value))
+    if not adds:
+        raise AnalysisError("features_basin: nothing is added to the list")
+    loopvars = {n.target.id for n in walk(fbp) if isinstance(n, ast.For)
+                and isinstance(n.target, ast.Name)
+                and "basins" in txt(n.iter)}
     g = CFG(fbp)
-    for a in adds:
-        v = a.value if isinstance(a, ast.AugAssign) else a.value.args[0]
-        owner = None
-        for x in ast.walk(v):
-            if isinstance(x, ast.Attribute) and x.attr == "features" \
-                    and isinstance(x.value, ast.Name):
-                owner = x.value.id
-        if owner is None:
-            raise AnalysisError("features_basin: basin variable lost")
+    getter_safe = _features_getter_checks_availability(repo)
+    for a, v in adds:
+        vt = ast.parse(expand_locals(fbp, v), mode="eval").body
+        owners = {x.value.id for x in ast.walk(vt) if isinstance(
+            x, ast.Attribute) and x.attr == "features" and isinstance(
+            x.value, ast.Name) and x.value.id in loopvars}
+        if len(owners) != 1:
+            raise AnalysisError(f"features_basin: cannot tell whose features "
+                                f"`{short(a, 50)}` adds")
+        owner = list(owners)[0]
+        av_names = {n.targets[0].id for n in walk(fbp) if isinstance(
+            n, ast.Assign) and len(n.targets) == 1 and isinstance(
+            n.targets[0], ast.Name) and isinstance(n.value, ast.Call)
+            and last_attr(n.value) == "is_available"
+            and is_name(n.value.func.value, owner)
+            and single_assign(fbp, n.targets[0].id) is not None}
 
-        def fact(e, t, owner=owner):
+        def fact(e, t, owner=owner, av_names=av_names):
+            if isinstance(e, ast.Name) and e.id in av_names:
+                return t
             return t and isinstance(e, ast.Call) and last_attr(
                 e) == "is_available" and is_name(e.func.value, owner)
-        ok = edge_guarded(g, g.ids_of(a), fact_guard(fact))
+        ok = getter_safe or edge_guarded(g, g.ids_of(a), fact_guard(fact))
         ctx.ob("R14.4", ok,
                "features of a basin are listed only when it is available"
                if ok else
                "features of a basin are listed without the availability "
-               "test: features of unreachable basins are offered",
-               node=a, label="features of available basins")
+               "test (Basin.features returns the feature list of the "
+               "definition also for an unreachable basin): features that "
+               "cannot be read are offered", node=a,
+               label="features of available basins")
+
+
+def single_assign_any(func, name):
+    """value of the first plain assignment to `name` (or None)"""
+    for n in walk(func):
+        if isinstance(n, ast.Assign) and len(n.targets) == 1 and is_name(
+                n.targets[0], name):
+            return n.value
+    return None
+
+
+def _features_getter_checks_availability(repo):
+    """Basin.features returns something else than an empty list only after
+    self.is_available() held"""
+    fp = None
+    for st in repo.cls(FB, "Basin").body:
+        if isinstance(st, ast.FunctionDef) and st.name == "features":
+            fp = st
+    if fp is None:
+        raise AnalysisError("Basin.features lost")
+    g = CFG(fp)
+
+    def fact(e, t):
+        return t and isinstance(e, ast.Call) and last_attr(
+            e) == "is_available" and is_self_attr(e.func)
+    rets = [r for r in walk(fp) if isinstance(r, ast.Return)
+            and not (isinstance(r.value, ast.List) and not r.value.elts)]
+    return bool(rets) and all(edge_guarded(g, g.ids_of(r), fact_guard(fact))
+                              for r in rets)
 
 
 # ----------------------------------------------------------------------
@@ -1457,7 +1669,7 @@ def run(ctx):
              minimum=19)
     ctx.rule("R14.2", "cycle cut: ignore test dominates instantiation, own + "
              "inherited keys handed down and installed before use, list only "
-             "grows, definitions carry keys", minimum=26)
+             "grows, definitions carry keys; locks not re-entered", minimum=30)
     ctx.rule("R14.3", "identifier law: equality / referrer.startswith(basin), "
              "asserted before data, file basins verified, chain not "
              "overridden, writer agrees", minimum=18)
@@ -1468,6 +1680,7 @@ def run(ctx):
     r141(ctx, repo, sites)
     r141_writers(ctx, repo)
     r142(ctx, repo, sites)
+    r142_locks(ctx, repo)
     r143(ctx, repo, sites)
     r144(ctx, repo)
 
@@ -1499,6 +1712,7 @@ def crossval(ctx):
 
 
 HTTPF = "dclab/rtdc_dataset/fmt_http.py"
+H5BASIN = "dclab/rtdc_dataset/fmt_hdf5/basin.py"
 S3F = "dclab/rtdc_dataset/fmt_s3.py"
 
 _CYCLE = ('            if "key" in bdict and bdict["key"] in self._basins_ignored:\n'
@@ -1594,6 +1808,26 @@ MUTANTS = [
       '        if "trace" in self and not len(self["trace"]):\n'
       '            warnings.warn("empty trace")\n'
       '        self.title = "{} - M{}".format('), "R14.2"),
+    ("warning formats self inside the availability lock (seeded C14_6)",
+     H5BASIN,
+     [("import pathlib\n", "import pathlib\nimport warnings\n"),
+      ("                except OSError:\n                    pass\n",
+       "                except OSError as exc:\n"
+       "                    warnings.warn(f\"Could not check availability of \"\n"
+       "                                  f\"{self}: {exc}\")\n")], "R14.2"),
+    ("str(self) logged inside the availability lock", HTTPF,
+     ("                if not REQUESTS_AVAILABLE:\n"
+      "                    # don't even bother\n"
+      "                    self._available_verified = False\n",
+      "                if not REQUESTS_AVAILABLE:\n"
+      "                    # don't even bother\n"
+      "                    print(\"requests missing for \" + str(self))\n"
+      "                    self._available_verified = False\n"), "R14.2"),
+    ("features consulted inside the availability lock", S3F,
+     ("                if not BOTO3_AVAILABLE:\n"
+      "                    self._available_verified = False\n",
+      "                if not BOTO3_AVAILABLE or not self.features:\n"
+      "                    self._available_verified = False\n"), "R14.2"),
     # ---- R14.3
     ("startswith arguments swapped", FB,
      ("                            self.measurement_identifier,\n"
@@ -1717,6 +1951,18 @@ MUTANTS = [
      ("                    self._basins.remove(bn)\n",
       "                    self._basins.remove(bn)\n"
       "                    data = np.full(len(self), np.nan)\n"), "R14.4"),
+    ("availability guard merged away (seeded C14_5)", CORE,
+     [("                    if bn.features and set(bn.features) <= set(features):\n",
+       "                    bn_features = bn.features\n"
+       "                    if bn_features and set(bn_features) <= set(features):\n"),
+      ("                    if bn.is_available():\n"
+       "                        features += bn.features\n",
+       "                    features += bn_features\n")], "R14.4"),
+    ("availability test of the wrong polarity", CORE,
+     ("                    if bn.is_available():\n"
+      "                        features += bn.features\n",
+      "                    if not bn.is_available():\n"
+      "                        features += bn.features\n"), "R14.4"),
     ("features of unavailable basins listed", CORE,
      ("                    if bn.is_available():\n"
       "                        features += bn.features\n",
@@ -1840,6 +2086,41 @@ TWINS = [
       "                            own_id == basin_identifier\n"
       "                            if self.mapping == \"same\" else\n"
       "                            own_id.startswith(basin_identifier)))\n")),
+    ("warning formats the location inside the lock", H5BASIN,
+     [("import pathlib\n", "import pathlib\nimport warnings\n"),
+      ("                except OSError:\n                    pass\n",
+       "                except OSError as exc:\n"
+       "                    warnings.warn(f\"Could not check availability of \"\n"
+       "                                  f\"{self.location}: {exc}\")\n")]),
+    ("warning formats self after the lock is released", H5BASIN,
+     [("import pathlib\n", "import pathlib\nimport warnings\n"),
+      ("            with self._av_check_lock:\n"
+       "                try:\n"
+       "                    self._available_verified = \\\n"
+       "                        pathlib.Path(self.location).exists()\n"
+       "                except OSError:\n"
+       "                    pass\n",
+       "            problem = None\n"
+       "            with self._av_check_lock:\n"
+       "                try:\n"
+       "                    self._available_verified = \\\n"
+       "                        pathlib.Path(self.location).exists()\n"
+       "                except OSError as exc:\n"
+       "                    problem = exc\n"
+       "            if problem is not None:\n"
+       "                self._available_verified = False\n"
+       "                warnings.warn(f\"Could not check {self}: {problem}\")\n")]),
+    ("re-entrant availability lock", FB,
+     ("        self._av_check_lock = threading.Lock()\n",
+      "        self._av_check_lock = threading.RLock()\n")),
+    ("availability test with early continue and a local", CORE,
+     ("                    if bn.is_available():\n"
+      "                        features += bn.features\n",
+      "                    reachable = bn.is_available()\n"
+      "                    if not reachable:\n"
+      "                        continue\n"
+      "                    bn_feats = bn.features\n"
+      "                    features.extend(bn_feats)\n")),
     ("bare except", CORE,
      ("                except BaseException:\n", "                except:\n")),
     ("Basin.ds installs through a local name", FB,
